@@ -19,8 +19,13 @@ int main(int argc, char **argv)
 	if (argc < 7) return 2;
 	rate = atoi(argv[2]); format = atoi(argv[3]); numvoc = atoi(argv[4]); mode = atoi(argv[5]); dumpv = atoi(argv[6]);
 	if (xmp_load_module(c, argv[1]) < 0) { puts("LOAD-FAILED"); return 0; }
-	if (mode >= 0) xmp_set_player(c, XMP_PLAYER_MODE, mode);
 	if (numvoc > 0) xmp_set_player(c, XMP_PLAYER_VOICES, numvoc);
+	if (mode >= 0) {
+		/* the player mode can only be set while playing: start, set it, end, start again */
+		if (xmp_start_player(c, rate, format) < 0) { puts("START-FAILED"); return 0; }
+		xmp_set_player(c, XMP_PLAYER_MODE, mode);
+		xmp_end_player(c);
+	}
 	libxmp_set_random(&ctx->rng, 4242);
 	if (xmp_start_player(c, rate, format) < 0) { puts("START-FAILED"); return 0; }
 	xmp_get_module_info(c, &mi);
